@@ -20,6 +20,7 @@ import (
 	"sort"
 	"strings"
 	"testing"
+	"time"
 
 	"github.com/tetratelabs/wazero"
 	"github.com/tetratelabs/wazero/api"
@@ -102,6 +103,7 @@ type runner struct {
 	compiled map[int]wazero.CompiledModule
 	res      *runResult
 	nonce    int
+	failed   bool
 
 	allowExcluded bool // run cases of the excluded classes too (dedicated known-finding tests)
 }
@@ -129,7 +131,7 @@ func runCase(c *Case, engine string) *runResult {
 		case "acc", "host":
 			msg = r.access(s)
 		case "gc":
-			runtime.GC()
+			letTimePass()
 		}
 		if msg == "" && (r.res.harness != "" || r.res.excluded != "") {
 			return r.res
@@ -139,10 +141,23 @@ func runCase(c *Case, engine string) *runResult {
 			return r.res
 		}
 	}
-	if msg := r.sweep(); msg != "" {
+	if r.failed {
+		letTimePass() // what a failed instance left unreachable is collected and finalized before the last look
+	}
+	if msg := r.sweep(true); msg != "" {
 		r.res.msg = fmt.Sprintf("[%s] final sweep: %s", engine, msg)
 	}
 	return r.res
+}
+
+// letTimePass runs garbage collections and gives finalizers (which release compiled code) time
+// to run.
+func letTimePass() {
+	for i := 0; i < 2; i++ {
+		runtime.GC()
+		runtime.Gosched()
+		time.Sleep(300 * time.Microsecond)
+	}
 }
 
 func stepString(s Step) string {
@@ -247,12 +262,13 @@ func (r *runner) instantiate(s Step) string {
 			spec.Name, s.As, firstLine(err.Error()), want)
 	}
 	r.res.labels["inst:failed-at-"+want]++
+	r.failed = true // it got past linking: it may have left functions in shared tables
 	return r.afterFailure()
 }
 
 // afterFailure re-reads the whole store after a failed instantiation.
 func (r *runner) afterFailure() string {
-	if msg := r.sweep(); msg != "" {
+	if msg := r.sweep(false); msg != "" {
 		return "after the failed instantiation: " + msg
 	}
 	return ""
@@ -327,7 +343,7 @@ func (r *runner) access(s Step) string {
 		return r.cmpGlobal(mod.(experimental.InternalModule).Global(s.Idx).Get(), want)
 	case "hm8", "hm32", "hmw8", "hmsize":
 		mem := mod.Memory()
-		if s.Sig == 1 {
+		if s.Sig == 1 && r.m.live[s.Inst].spec.exported(kMem, 0) {
 			mem = mod.ExportedMemory("mem")
 		}
 		if mem == nil {
@@ -407,7 +423,11 @@ func (r *runner) cmpGlobal(got uint64, want mres) string {
 }
 
 // sweep reads every object through every live instance (host API and read-only accessors).
-func (r *runner) sweep() string {
+// The final sweep also CALLS every function found in a table (through the first instance that
+// sees the table): functions left behind by failed or earlier instances must still run, on the
+// state of the instance that defines them.
+func (r *runner) sweep(final bool) string {
+	called := map[*mTable]bool{}
 	for _, name := range r.m.order {
 		in := r.m.live[name]
 		try := func(s Step) string {
@@ -418,7 +438,11 @@ func (r *runner) sweep() string {
 			return ""
 		}
 		for i, g := range in.globals {
-			if msg := try(Step{Op: "host", Acc: "hgget", Idx: i}); msg != "" {
+			hop := "hgget"
+			if !in.spec.exported(kGlobal, i) {
+				hop = "higet"
+			}
+			if msg := try(Step{Op: "host", Acc: hop, Idx: i}); msg != "" {
 				return msg
 			}
 			op := Step{Op: "acc", Acc: "gget", Idx: i}
@@ -442,11 +466,23 @@ func (r *runner) sweep() string {
 						return msg
 					}
 				} else if f := t.fn[slot]; f != nil {
+					if final && !called[t] {
+						if msg := try(Step{Op: "acc", Acc: "tcall", Idx: i, Sig: f.f.sig, Args: []uint64{uint64(slot)}}); msg != "" {
+							return msg
+						}
+						f = t.fn[slot] // the call may have rewritten the slot
+						if f == nil {
+							continue
+						}
+					}
 					if msg := try(Step{Op: "host", Acc: "htl", Idx: i, Sig: f.f.sig, Args: []uint64{uint64(slot)}}); msg != "" {
 						return msg
 					}
 				}
 			}
+		}
+		for _, t := range in.tables {
+			called[t] = true
 		}
 		if in.mem != nil {
 			if msg := try(Step{Op: "acc", Acc: "msize"}); msg != "" {
@@ -586,6 +622,18 @@ func TestReplay(t *testing.T) {
 	p := evid.ReplayPath()
 	if p == "" {
 		t.Skip()
+	}
+	var cc concCase
+	if _, err := evid.LoadReplay(p, &cc); err == nil && len(cc.Rounds) > 0 {
+		// schedule-dependent: the recorded rounds are repeated
+		defer runtime.GOMAXPROCS(runtime.GOMAXPROCS(8))
+		for i := 0; i < 200; i++ {
+			if msg := runConc(&cc); msg != "" {
+				evid.Violation("replay", &cc, "%s", msg)
+				t.Fatal(msg)
+			}
+		}
+		return
 	}
 	var c Case
 	if _, err := evid.LoadReplay(p, &c); err != nil {
